@@ -173,8 +173,10 @@ static void handler(const Line& t, Out& o) {
       o.F(okh ? 1 : 0);
     } else o.F(1);
     ss.write("xyz", 3); ss.seekg(0);
-    sk_t back = sk_t::deserialize(ss);
-    o.F((long)ss.tellg() == (long)bytes.size() ? 1 : 0);
+    try {
+      sk_t back = sk_t::deserialize(ss);
+      o.F((long)ss.tellg() == (long)bytes.size() ? 1 : 0);
+    } catch (const std::exception&) { o.F(2); }
     break; }
   case 21: { // r2 := deserialize(serialize(r)): 21 r2 r compact via
     sk_t& s = get(t.at(2)); bool compact = t.at(3) != 0;
@@ -246,6 +248,13 @@ static void handler(const Line& t, Out& o) {
       for (uint32_t c : ap) o.R(c);
       for (uint8_t b : h->hllByteArr_) o.R(b);
     }
+    break; }
+  case 24: { // scratch sketch: 24 lgk ty c*  -> F = its updatable image (oracle only)
+    sk_t s((uint8_t)t.at(1), ty_of(t.at(2)));
+    for (size_t i = 3; i < t.size(); ++i) s.coupon_update((uint32_t)t[i]);
+    auto bytes = s.serialize_updatable();
+    o.R(1);
+    for (uint8_t b : bytes) o.F(b);
     break; }
   case 11: { // coupon of a raw hash state: 11 h1 h2
     HashState hs; hs.h1 = (uint64_t)t.at(1); hs.h2 = (uint64_t)t.at(2);
